@@ -690,7 +690,7 @@ pub fn check(tier: Tier) -> i32 {
     let seed = base_seed();
     let cells = grid().len() as u64;
     let per_cell = match tier {
-        Tier::Quick => env_u64("VERIF_PER_CELL", 500),
+        Tier::Quick => env_u64("VERIF_PER_CELL", 300),
         Tier::Thorough => env_u64("VERIF_PER_CELL", 4000),
     };
     let cfg = SearchCfg {
